@@ -326,9 +326,9 @@ def run(ctx, build):
                         d = dest[clean]
                         val = np.zeros(d.shape, dtype=d.dtype)
                         if d.dtype.names:
-                            val[d.dtype.names[0]] = hi + ci + 1
+                            val[d.dtype.names[0]] = (hi + ci) % 200 + 1
                         else:
-                            val[...] = hi + ci + 1
+                            val[...] = (hi + ci) % 200 + 1
                         d[...] = val
                 else:
                     prev_dt = req_dt
